@@ -714,6 +714,24 @@ class Interp(object):
             a = ('load', p.obj, off, o.version, b)
             if a not in st.rng:
                 st.rng[a] = (0, (1 << b) - 1)
+            data = o.attrs.get('data')
+            if data is not None and o.attrs.get('const') and nbytes == o.attrs.get('eltbytes', 1):
+                # constant table read at a symbolic index: value range of the entries the index can reach
+                eb_ = o.attrs.get('eltbytes', 1)
+                lo_i, hi_i = st.range(off)
+                lo_i = max(0, (lo_i + eb_ - 1) // eb_) if lo_i > -INF else 0
+                hi_i = min(len(data) - 1, hi_i // eb_) if hi_i < INF else len(data) - 1
+                if lo_i <= hi_i:
+                    vals = data[lo_i:hi_i + 1]
+                    half = 1 << (b - 1)
+                    sv = [v - (1 << b) if v >= half else v for v in vals]
+                    st.ev('table-load', inst, p.obj, off, a)
+                    if min(sv) < 0:
+                        sa_ = ('tbl', p.obj, off, o.version, b)
+                        st.rng[sa_] = (min(sv), max(sv))
+                        return IntV(b, Lin.atom(sa_), 's')
+                    st.rng[a] = (min(vals), max(vals))
+                    return IntV(b, Lin.atom(a), 'u')
             L = o.attrs.get('cstr_len')
             if L is not None and nbytes == o.attrs.get('cstr_eb', 1):
                 links = st.flags.setdefault('strlinks', [])
@@ -1266,6 +1284,30 @@ class Interp(object):
                     used.append((a1, ('ord', a2), None))
                 else:
                     self.inv_disabled.add(k2)
+        # affine relations between carried slots observed over the unrolled iteration(s): db*(a - a0) == da*(b - b0)
+        def offs(v):
+            if isinstance(v, PtrV) and v.obj is not None:
+                return v.off
+            if isinstance(v, IntV):
+                return v.lin
+            return None
+        names = [n2 for n2 in begin if offs(begin[n2]) is not None and offs(orig_vals.get(n2)) is not None and
+                 offs(entry.get(n2)) is not None and not any(u[0] == n2 and u[1] == 'same' for u in used)]
+        deltas = {}
+        for n2 in names:
+            d0 = offs(orig_vals[n2]) - offs(entry[n2])
+            if not d0.t and d0.c != 0 and type(orig_vals[n2]) is type(entry[n2]):
+                deltas[n2] = d0.c
+        dn = sorted(deltas, key=repr)
+        for i1 in range(len(dn)):
+            for i2 in range(i1 + 1, len(dn)):
+                a1, a2 = dn[i1], dn[i2]
+                k2 = key0 + (a1, 'aff', a2)
+                if k2 in self.inv_disabled:
+                    continue
+                rel = (offs(begin[a1]) - offs(entry[a1])).scale(deltas[a2]) - (offs(begin[a2]) - offs(entry[a2])).scale(deltas[a1])
+                st.assume_eq0(rel)
+                used.append((a1, ('aff', a2, deltas[a1], deltas[a2], entry[a1], entry[a2]), None))
         st.flags['wbegin:' + fn.name] = begin
         extra = self.h.loop_candidates(self, st, fn, header, phis)
         for (name, lin) in extra:
@@ -1333,7 +1375,20 @@ class Interp(object):
                     newvals[i.id] = self.val(st, v)
         for (name, rel, ev) in rec[3]:
             key = (fn.name, header, name, rel)
-            if isinstance(rel, tuple) and rel[0] == 'ord':
+            if isinstance(rel, tuple) and rel[0] == 'aff':
+                key = (fn.name, header, name, 'aff', rel[1])
+                v1 = self.slot_value(st, fr, name, newvals)
+                v2 = self.slot_value(st, fr, rel[1], newvals)
+
+                def offs2(v):
+                    if isinstance(v, PtrV) and v.obj is not None:
+                        return v.off
+                    if isinstance(v, IntV):
+                        return v.lin
+                    return None
+                o1, o2, e1, e2 = offs2(v1), offs2(v2), offs2(rel[4]), offs2(rel[5])
+                ok = None not in (o1, o2, e1, e2) and st.is_eq0((o1 - e1).scale(rel[3]) - (o2 - e2).scale(rel[2])) is True
+            elif isinstance(rel, tuple) and rel[0] == 'ord':
                 key = (fn.name, header, name, 'ord', rel[1])
                 v1 = self.slot_value(st, fr, name, newvals)
                 v2 = self.slot_value(st, fr, rel[1], newvals)
@@ -1720,6 +1775,21 @@ class Interp(object):
                 return NULL
         return self.fresh_ptr(st, 'i2p', maynull=True)
 
+    def divmod_facts(self, st, x, k, bits):
+        """x = k*q + r with 0 <= r < k for q = udiv(x,k), r = urem(x,k) (both atoms are created)."""
+        qa = ('udiv', x, Lin.const(k), bits)
+        ra = ('urem', x, Lin.const(k), bits)
+        lo, hi = st.range(x)
+        if qa not in st.rng:
+            st.rng[qa] = (max(lo, 0) // k, hi // k if hi < INF else (1 << bits) - 1)
+        if ra not in st.rng:
+            st.rng[ra] = (0, k - 1)
+        d = x - Lin.atom(qa).scale(k) - Lin.atom(ra)
+        key = ('divmod', repr(x), k)
+        if key not in st.flags:
+            st.flags[key] = True
+            st.assume_eq0(d)
+
     def opaque_op(self, st, name, bits, a, b, rng):
         at = (name, a, b, bits)
         old = st.rng.get(at)
@@ -1808,11 +1878,17 @@ class Interp(object):
                 if not lb.t and lb.c > 0 and all(k % lb.c == 0 for _, k in la.t) and la.c % lb.c == 0 and inst.d.get('exact'):
                     return IntV(bits, Lin(la.c // lb.c, tuple((x, k // lb.c) for x, k in la.t)), 'u')
                 rng = (max(alo, 0) // max(bhi, 1) if bhi < INF else 0, ahi // max(blo, 1) if ahi < INF else M - 1)
-                return self.opaque_op(st, 'udiv', bits, la, lb, rng)
+                q = self.opaque_op(st, 'udiv', bits, la, lb, rng)
+                if not lb.t and lb.c > 0:
+                    self.divmod_facts(st, la, lb.c, bits)
+                return q
             rng = (0, min(ahi, (bhi - 1) if bhi < INF else M - 1, M - 1))
             if rng[1] < 0:
                 rng = (0, M - 1)
-            return self.opaque_op(st, 'urem', bits, la, lb, rng)
+            r_ = self.opaque_op(st, 'urem', bits, la, lb, rng)
+            if not lb.t and lb.c > 0:
+                self.divmod_facts(st, la, lb.c, bits)
+            return r_
         if op in ('sdiv', 'srem'):
             la, lb = self.slin(st, a), self.slin(st, b)
             if la is not None and lb is not None and lb.t:
@@ -1900,9 +1976,13 @@ class Interp(object):
             la = self.slin(st, a)
             if la is not None and not b.lin.t:
                 lo, hi = st.range(la)
+                c = b.lin.c
                 if lo >= 0:
-                    c = b.lin.c
                     return self.opaque_op(st, 'lshr', bits, la, c, (lo >> c, min(hi, M - 1) >> c))
+                if lo > -INF and hi < INF:
+                    at = ('ashr', la, c, bits)
+                    st.rng[at] = (lo >> c, hi >> c)
+                    return IntV(bits, Lin.atom(at), 's')
             return self.fresh_int(st, bits, 'ashr', signed=True)
         return self.fresh_int(st, bits, op)
 
